@@ -17,6 +17,7 @@ EXPLANATION = (
     "C10.3 field privacy: UnixString.0 / UnixStr.0 are not public, so no safe external code can forge one. "
     "C10.5 *_unchecked sinks inside private unsafe helpers (reachable only through this crate's safe API) match an audited idiom: a prefix ending at a NUL stored just before, or raw parts (pointer, len + 1) whose call sites pass <&UnixStr>.as_ptr() and a buffer of exactly strlen(pointer) bytes. "
     "C10.6 the scanners that idiom trusts: buf_strlen / strlen return an index at which the byte was just compared equal to 0, reached by a counter from 0 in steps of 1, and buf_strlen fails only at the end of the buffer. C10.4 type-level witnesses: UnixString's constructor and bytes are private to rusl, literals with an interior NUL or without terminator are rejected at compile time; "
+    "C10.4 also: the unix_lit! macro itself rejects a literal with an interior or its own trailing NUL at compile time. "
     "NOT decided: that inputs with several NULs are handled as the caller intends beyond rejection; public unsafe constructors (from_ptr, *_unchecked) are the caller's obligation.")
 ASSUMPTIONS = ["the transfer table is the complete list of byte-vector operations used in these functions; any other mutation makes the state unknown (fail closed)",
                "type invariant: the byte field of an existing UnixStr/UnixString is NUL-terminated (established inductively by this very rule at every sink)"]
